@@ -38,6 +38,9 @@ MC_BodiesMore == MC_BodiesCore \cup
                   <<L("proxycommand", <<"~", "%p", "%r">>)>>,
                   <<L("hostname", <<"b">>), L("user", <<"m", "x">>)>>,
                   <<L("identityfile", <<"~", "%u">>), L("compression", <<"y">>)>>}
+\* a block that sets HostName, a `Match host` that applies only through it, another block with the same option
+MC_HeadersMH == {HostH(<<P(<<"b">>)>>), MatchH(<<Cr("host", FALSE, <<P(<<"a", "*">>)>>)>>), HostH(<<P(<<"*">>)>>)}
+MC_BodiesMH  == {<<L("hostname", <<"a", "b">>)>>, <<L("port", <<"1">>)>>, <<L("port", <<"2">>)>>}
 MC_PreNone == {<<>>}
 MC_PreSome == {<<>>, <<L("identityfile", <<"%h", "k">>)>>, <<L("port", <<"9">>), L("hostname", <<"%h", "y">>)>>}
 =============================================================================
